@@ -151,7 +151,7 @@ var batchBindPoolPkCmd = &cobra.Command{
 				}
 			}
 		} else {
-			seed, err := keystore.NewSeedWithErrorChecking(strings.TrimSpace(args[0]), "")
+			seed, err := keystore.NewSeedWithErrorChecking(strings.Join(strings.Fields(args[0]), " "), "")
 			if err != nil {
 				fmt.Fprintln(os.Stderr, err)
 				os.Exit(ExitBindPoolPkInvalidMnemonic)
